@@ -307,10 +307,11 @@ class CSSStyleDeclaration(CSS2Properties, css_parser.util.Base2):
             return expected
 
         def unexpected(expected, seq, token, tokenizer=None):
-            # error, find next ; or } to omit upto next property
-            ignored = self._tokenvalue(token) + self._valuestr(
-                self._tokensupto2(tokenizer,
-                                  propertyvalueendonly=True))
+            # error, omit the whole malformed declaration: everything upto
+            # the next ";" outside of any (), [] or {} which this token may open
+            ignored = self._valuestr(
+                self._tokensupto2(tokenizer, starttoken=token,
+                                  semicolon=True))
             self._log.error('CSSStyleDeclaration: Unexpected token, ignoring '
                             'upto %r.' % ignored, token)
             # does not matter in this case
